@@ -99,8 +99,42 @@ def tsens (c impl : Json) : P Json := do
     return verdict false s!"cell hashes changed from {cols} to {cols'} but the table fingerprint stayed {tb}" (toJson (mB == mA))
   return verdict true ""
 
+/-- an element tree: a JSON integer is a scalar's hash, `{"k": kind, "e": [...]}` a set (1, items sorted) / tuple (2) / list (3) -/
+partial def asElem (j : Json) : P FP.Elem :=
+  match j with
+  | .obj _ => do
+      let k ← natF j "k"
+      let xs ← asArr (← field j "e")
+      let es ← xs.mapM asElem
+      return .seq k es
+  | _ => do
+      let h ← asInt j
+      return .leaf h
+
+/-- container-valued elements: the fingerprint is the rolling hash of the element hashes, a list / tuple / set element hashing
+    as the rolling hash of its items (sets in sorted order); it does not depend on how an equal container was built, is stable
+    across calls, and notices a change at any nesting depth -/
+def container (c impl : Json) : P Json := do
+  let es ← listF asElem c "elems"
+  let es' ← listF asElem c "elems2"
+  let vb ← intF impl "v_before"; let again ← intF impl "v_again"; let twin ← intF impl "v_twin"
+  let va ← intF impl "v_after"; let rebuilt ← intF impl "v_rebuilt"
+  let mB := FP.fpElems es; let mA := FP.fpElems es'
+  if vb != mB || va != mA then
+    return verdict false s!"fingerprints ({vb}, {va}) differ from the rolling hash of the (nested) contents ({mB}, {mA})"
+  if again != vb then
+    return verdict false s!"a second fingerprint() call returned {again} after {vb} with nothing written in between"
+  if twin != vb then
+    return verdict false s!"a vector with equal contents whose containers were built in another order has fingerprint {twin}, this one {vb}"
+  if rebuilt != va then
+    return verdict false s!"fingerprint {va} after the write differs from a freshly built equal vector ({rebuilt})"
+  if es.map FP.Elem.hash != es'.map FP.Elem.hash && va == vb then
+    return verdict false s!"the contents of a container-valued element changed but the fingerprint stayed {vb}" (toJson (mB == mA))
+  return verdict true ""
+
 def handle (fam : String) (c impl : Json) : P Json :=
   match fam with
+  | "container" => container c impl
   | "tsens" => tsens c impl
   | "history" => history c
   | "sens" => sens c impl
